@@ -46,8 +46,8 @@ Theorem C04_step_covariant :
     (forall i, cabs2 OpsR (gz i) = 1) -> NoDup fixed ->
   forall (U : list RC) (psi : nat -> RC) (eps : nat -> R) (gamma u dt : R) (muB dAdt : nat -> R),
     length U = length es ->
-    match step OpsR a n es fixed solve tlink U psi eps gamma u dt muB dAdt,
-          step OpsR a n es fixed solve tlink (gauge_links gz es U) (gauge_psi gz psi) eps gamma u dt muB dAdt with
+    match step OpsR a n es fixed solve tlink None U psi eps gamma u dt muB dAdt,
+          step OpsR a n es fixed solve tlink None (gauge_links gz es U) (gauge_psi gz psi) eps gamma u dt muB dAdt with
     | None, None => True
     | Some o, Some o' =>
         (forall r, so_psi _ o' r = cxmul (gz r) (so_psi _ o r)) /\
